@@ -20,7 +20,8 @@ MANIFEST = {
             "reference DC (vlib/refdc.py; toy security context and real NTLM via pyspnego), transcript decoded by the DC's own decoders vs the extracted model.",
     "note": "sync = async is partial: the public function pairs are identical as normalised ASTs (twin kernels), _sync_get_key/_async_get_key differ syntactically for benign reasons and are "
             "tied by running both flavours against the same model transcript (C17_sync_async_partial). Result correctness beyond 'the envelope the DC sent is what the caller gets' is the "
-            "composition with C01-C03 and is checked here by round trips against the reference DC, not proved as one theorem.",
+            "composition with C01-C03: proved in Proofs/C17Compose.v (C17_online_unprotect / C17_online_protect: a conforming reply decrypts the blob / yields a blob that decrypts) "
+            "and additionally checked by round trips against the reference DC.",
     "technique": "Coq proof (composition of C11/C13/C16 lemmas over regenerated kernels) + differential runs against an independent reference DC",
 }
 ASSUMPTIONS = ["the domain controller is conforming (reference DC of vlib/refdc.py: MS-GKDI 2.2.4 envelopes for the requested or current position, both L2=31 shapes)",
@@ -36,9 +37,19 @@ PARTIAL = [
     "partial: SyncRpcClient.bind is tied to the async body only syntactically (C15_flow_bind_twin: `self._auth.step(..)` mutates an attribute of a local, which the single-owner "
     "semantics cannot express on the sync side), and RpcClient._prepare_pdu patches frag_len / auth_len through a memoryview alias (no honest tie: kernels k_fraglen_patch + "
     "correspondence framing.request cover it)",
-    "C17_result: proved as stated in the brief (accepted only after a successful unwrap of exactly the sealed region; the caller gets the envelope the conforming DC marshalled). "
-    "The design-level extension `... and that envelope decrypts the blob / the blob produced from it decrypts, for every position, seed-key and public-key replies` is NOT proved as one "
-    "theorem (it is C01-C03 composed with C17_result); it is checked by round trips against the reference DC in online.refdc",
+    "C17_result is proved as stated in the brief, and its design-level extension `... and that envelope decrypts the blob / the blob produced from it decrypts` is now "
+    "proved (Proofs/C17Compose.v) as the composition with C01-C03 over the same models: C17_dc_envelope (a successful conversation with a script marshalling e returns e), "
+    "C17_unprotect_with_envelope (a protected blob names exactly the requested (SD, rkid, L0, L1, L2) and EVERY envelope conforming to MS-GKDI 2.2.4 for the root key -- env_ok, "
+    "the predicate cache_ok imposes on cache entries -- and covering the position decrypts it, is stored, and then serves the blob from the cache), C17_protect_with_envelope "
+    "(_encrypt_blob on a conforming seed-key / DH / ECDH envelope yields a blob every cache_ok cache decrypts, both layouts), and the end-to-end corollaries "
+    "C17_online_unprotect / C17_online_protect (hypotheses of C17_result + `dc marshals e` + `e conforms`; conclusion: ncrypt_(un)protect_secret with the cache-miss branch "
+    "filled in by the conversation returns the plaintext / a blob that decrypts; every position, both flavours, seed-key and public-key replies; instances run inside Coq: "
+    "C17_online_unprotect_example, C17_online_protect_example). What remains outside these theorems: (a) unprotect_via_dc / protect_via_dc (Model/Client.v's offline functions with "
+    "the miss branch := the conversation; equal to the offline functions when no DC answers, C17_via_no_dc) are tied to the source only through C10's flow ties of the same shape "
+    "(Flow_cache_public.unprotect_online, whose oracle takes interpreter values); the equality of the two is by inspection, not a theorem (it would put C10's flow group into C17's "
+    "dependency cone); (b) conformance of the DC's envelope (env_ok / protect_env_ok) and the C06 size side conditions are hypotheses -- a non-conforming DC is outside the property; "
+    "for a seed-key reply at L2 = 31 carrying an L2 key, that key must be the chain key (Spec/GkdiSpec.conforming is silent there; seed_env_ok adds it); (c) the primitives are the "
+    "abstract Crypto record with its round-trip laws, as in C01; the round trips against the reference DC in online.refdc remain the tie to the real cryptography",
     "no liveness theorem: that a conforming peer script always leads to an envelope is shown by the Example C17_conversation_example (one complete conversation run inside Coq, both "
     "flavours) and by the correspondence, not for all scripts",
 ]
